@@ -4,6 +4,7 @@ use serde_json::{json, Value as J};
 use std::io::{BufRead, Write};
 
 pub mod frag;
+pub mod milud;
 
 pub fn read_cases(path: &str) -> Vec<J> {
     let f = std::fs::File::open(path).unwrap_or_else(|e| panic!("open {}: {}", path, e));
@@ -65,6 +66,7 @@ pub fn main() {
         "frag" => frag::main(rest),
         "frag-grid" => frag::grid(rest),
         "frag-trace" => frag::trace(rest),
+        "parse" => milud::parse_main(rest),
         x => {
             eprintln!("unknown driver {}", x);
             std::process::exit(2);
